@@ -14,7 +14,7 @@ OpResult exec_ext(World &w, const Op &op) {
 
 void all_overrides(Store &st, const Fault &f) {
     if (f.kind == "OVR_FEAT") feat_override(st, f);
-    else if (f.kind == "OVR_SILF") silf_override(st, f);
+    else if (f.kind == "OVR_SILF" || f.kind == "OVR_SILFPROG") silf_override(st, f);
     else lz4_override(st, f);      // OVR_LZ4, OVR_RELABEL5, OVR_PLAIN, OVR_FORCED
 }
 
